@@ -576,7 +576,11 @@ func c17DialCheck(c *Ctx, d c17Dial) {
 			c.Violation("secure-scheme-no-handshake", fmt.Sprintf("DialURI(%+v): first record is not a TLS/DTLS handshake: %x", *u, clip(first)), rp)
 			return
 		}
-		if net.ParseIP(d.Host) == nil {
+		bare := d.Host
+		if i := strings.IndexByte(bare, '%'); i >= 0 {
+			bare = bare[:i] // an IPv6 literal with a zone is an IP literal (TLS sends no server name for it)
+		}
+		if net.ParseIP(bare) == nil {
 			// server name: <type 0> <len16> <name> inside the ClientHello
 			pat := append([]byte{0x00, byte(len(d.Host) >> 8), byte(len(d.Host))}, d.Host...)
 			if !bytes.Contains(first, pat) {
@@ -741,7 +745,7 @@ func init() {
 			hosts := []struct {
 				h string
 				p int
-			}{{"127.0.0.1", 3478}, {"localhost", 5349}, {"::1", 1}, {"127.0.0.1", 0}, {"localhost", 65535}}
+			}{{"127.0.0.1", 3478}, {"localhost", 5349}, {"::1", 1}, {"127.0.0.1", 0}, {"localhost", 65535}, {"fe80::1%eth0", 5349}, {"fe80::2%25", 3478}}
 			var j int64
 			for sc := 0; sc <= 4; sc++ {
 				for pr := 0; pr <= 2; pr++ {
